@@ -6,6 +6,7 @@ import (
 	"errors"
 	"fmt"
 	"io"
+	"slices"
 	"sync"
 	"testing"
 	"testing/synctest"
@@ -293,7 +294,95 @@ func TestVerif_C32(t *testing.T) {
 		r.Event("scripted_stream_frames_seen", res.Frames)
 		r.Eval(res.ResetsChecked > 0 && res.Lost > 0, "vslr", res.Frames, res.Streams, res.ResetsChecked, res.Lost, res.Raises)
 	})
+	// (b') the final size is learned from a FIN carried by a frame that brings nothing new: the
+	// stream holds the prefix [0,N), a STREAM frame [k,N) with FIN arrives (the tail, or all of it,
+	// sent again after CloseWrite or as a PTO probe), then the peer contradicts N.
+	r.Cases("scripted-fin-on-retransmitted-data", r.N(600, 6000), func(c *verifrt.Case) {
+		rng := c.Rng
+		side := []connSide{clientSide, serverSide}[rng.IntN(2)]
+		styp := []streamType{bidiStream, uniStream}[rng.IntN(2)]
+		have := int64(1 + rng.IntN(1000))                              // one frame fits one packet of the scripted peer
+		k := []int64{0, have - 1, rng.Int64N(have), have}[rng.IntN(4)] // k == have: the empty FIN frame
+		pieces := 1 + rng.IntN(3)
+		mode := rng.IntN(5)
+		readFirst := rng.IntN(2) == 0
+		c.Describe(map[string]any{"side": fmt.Sprint(side), "stream": fmt.Sprint(styp), "prefix": have, "fin_frame_from": k, "pieces": pieces, "mode": mode, "read_first": readFirst})
+		synctest.Test(t, func(t *testing.T) {
+			tc := vlpScripted(t, side, permissiveTransportParameters)
+			id := newStreamID(side.peer(), styp, 0)
+			data := make([]byte, have)
+			// the prefix in 1-3 frames, in any order
+			cuts := []int64{0}
+			for i := 1; i < pieces; i++ {
+				cuts = append(cuts, rng.Int64N(have+1))
+			}
+			cuts = append(cuts, have)
+			slices.Sort(cuts)
+			for _, i := range rng.Perm(len(cuts) - 1) {
+				tc.writeFrames(packetType1RTT, debugFrameStream{id: id, off: cuts[i], data: data[cuts[i]:cuts[i+1]]})
+			}
+			s, err := tc.conn.AcceptStream(canceledContext())
+			if err != nil {
+				c.Violation("scripted-accept-error", "AcceptStream: %v", err)
+				return
+			}
+			s.SetReadContext(canceledContext())
+			var total int64
+			if readFirst {
+				n, _ := s.Read(make([]byte, 1+rng.Int64N(have)))
+				total += int64(n)
+			}
+			tc.writeFrames(packetType1RTT, debugFrameStream{id: id, off: k, data: data[k:], fin: true})
+			var what string
+			switch mode {
+			case 0:
+				tc.writeFrames(packetType1RTT, debugFrameResetStream{id: id, code: 1, finalSize: have + 1 + rng.Int64N(1000)})
+				what = "RESET_STREAM with a larger final size"
+			case 1:
+				tc.writeFrames(packetType1RTT, debugFrameResetStream{id: id, code: 1, finalSize: rng.Int64N(have)})
+				what = "RESET_STREAM with a smaller final size"
+			case 2:
+				tc.writeFrames(packetType1RTT, debugFrameStream{id: id, off: have, data: make([]byte, 1+rng.IntN(100))})
+				what = "STREAM data beyond the final size"
+			case 3:
+				tc.writeFrames(packetType1RTT, debugFrameStream{id: id, off: have, data: make([]byte, 1+rng.IntN(100)), fin: true})
+				what = "a second FIN at a larger offset"
+			}
+			frames := vlpDrain(tc)
+			gotCode, reason, closed := vlpCloseCode(frames)
+			if mode == 4 {
+				// no contradiction: the frames are consistent and the reader reaches io.EOF after the prefix
+				if closed {
+					c.Violation("fin-on-retransmitted-data-rejected", "prefix [0,%d) received, then STREAM [%d,%d) with FIN: CONNECTION_CLOSE %v %q", have, k, have, gotCode, reason)
+					return
+				}
+				var rerr error
+				buf := make([]byte, 4096)
+				for i := 0; i < 10 && rerr == nil; i++ {
+					var n int
+					n, rerr = s.Read(buf)
+					total += int64(n)
+				}
+				if rerr != io.EOF || total != have {
+					c.Violation("no-eof-after-fin-on-retransmitted-data", "prefix [0,%d) received, then STREAM [%d,%d) with FIN: Read ends with %v after %d bytes, want io.EOF after %d", have, k, have, rerr, total, have)
+				}
+				r.Event("scripted_fin_on_retransmitted_data_eof_checked", 1)
+				return
+			}
+			switch {
+			case !closed:
+				c.Violation("final-size-from-fin-on-retransmitted-data-not-enforced", "prefix [0,%d) received in %d frames, then STREAM [%d,%d) with FIN (final size %d), then %s: no CONNECTION_CLOSE was sent", have, len(cuts)-1, k, have, have, what)
+			case gotCode != errFinalSize:
+				c.Violation("final-size-wrong-error-code", "after a FIN on retransmitted data and %s: expected FINAL_SIZE_ERROR, got %v %q", what, gotCode, reason)
+			default:
+				r.Event("scripted_contradictions_of_fin_on_retransmitted_data_rejected", 1)
+			}
+		})
+		r.Eval(true, "finretx", side, styp, have, k, pieces, mode)
+	})
+
 	r.Require("scripted_reset_final_sizes_checked", 500)
+	r.Require("scripted_contradictions_of_fin_on_retransmitted_data_rejected", 200)
 	r.Require("reset_stream_first_sent", 30)
 	r.Require("reset_stream_retransmitted", 5)
 	r.Require("stop_sending_processed", 10)
